@@ -4,7 +4,7 @@ namespace DoitModel.Load
 
 theorem Inv.weaken {tk : Tasks} {seen seen' : List Name} (h : Inv tk seen) (hs : ∀ x ∈ seen, x ∈ seen') :
     Inv tk seen' :=
-  ⟨h.keyName, fun p hp => hs _ (h.seenKeys p hp), h.hasGroup, h.groupDeps⟩
+  ⟨h.keyName, fun p hp => hs _ (h.seenKeys p hp), h.hasGroup, h.groupDeps, h.groupPlain⟩
 
 theorem dictToTask_plain (d : TDict) (t : Task) (h : dictToTask d = .ok t) :
     t.subtaskOf = none ∧ t.hasSubtask = false ∧ get d .name = some (.str t.name) := by
@@ -26,7 +26,7 @@ theorem groupTask_ok (b : Name) (deps : List Name) (g : Task) (h : groupTask b d
   · cases h; exact ⟨rfl, rfl, rfl, rfl⟩
 
 theorem attachSub_inv {tk r : Tasks} {seen : List Name} (h : Inv tk seen) (b full : Name) (sub : Task)
-    (hnew : lookup tk full = none) (hne : full ≠ b) (hname : sub.name = full)
+    (hnew : lookup tk full = none) (hne : full ≠ b) (hname : sub.name = full) (hleaf : sub.hasSubtask = false)
     (hr : attachSub tk b full sub = .ok r) : Inv r (seen ++ [b, full]) := by
   unfold attachSub at hr
   split at hr
@@ -41,7 +41,7 @@ theorem attachSub_inv {tk r : Tasks} {seen : List Name} (h : Inv tk seen) (b ful
         subsIn_insert_same tk b b g { g with taskDep := g.taskDep ++ [full] } hg rfl rfl
       have h2 := h1.insert_sub b full { g with taskDep := g.taskDep ++ [full] } { sub with subtaskOf := some b }
         g.taskDep (by rw [lookup_insert_ne _ _ _ _ hne]; exact hnew) hne (lookup_insert_self _ _ _) hgs' rfl
-        (by rw [hsame]; exact h.groupDeps b g hg) hname rfl
+        (by rw [hsame]; exact h.groupDeps b g hg) hname rfl hleaf
       exact h2.weaken (by intro x hx; simp at hx ⊢; rcases hx with hx | hx <;> simp [hx])
   · rename_i hg
     split at hr
@@ -55,7 +55,7 @@ theorem attachSub_inv {tk r : Tasks} {seen : List Name} (h : Inv tk seen) (b ful
         simp
       have h2 := h1.insert_sub b full grp { sub with subtaskOf := some b } []
         (by rw [lookup_insert_ne _ _ _ _ hne]; exact hnew) hne (lookup_insert_self _ _ _) gh (by simp [gd])
-        (by rw [hsubs]; exact List.Sublist.refl _) hname rfl
+        (by rw [hsubs]; exact List.Sublist.refl _) hname rfl hleaf
       exact h2.weaken (by intro x hx; simp at hx ⊢; rcases hx with hx | hx | hx <;> simp [hx])
 
 theorem hasKey_false (tk : Tasks) (k : Name) (h : ¬ hasKey tk k = true) : lookup tk k = none := by
@@ -65,7 +65,6 @@ theorem hasKey_false (tk : Tasks) (k : Name) (h : ¬ hasKey tk k = true) : looku
   | some g => simp [hl] at h
 
 theorem yieldDict_inv {tk r : Tasks} {seen : List Name} (fn : Name) (d : TDict) (nf bf : Name) (h : Inv tk seen)
-    (hrep : (isReplacer (.dict d nf bf) && (yieldKeys fn (.dict d nf bf)).any seen.contains) = false)
     (hr : yieldDict tk fn d nf bf = .ok r) : Inv r (seen ++ yieldKeys fn (.dict d nf bf)) := by
   unfold yieldDict at hr
   split at hr
@@ -81,17 +80,24 @@ theorem yieldDict_inv {tk r : Tasks} {seen : List Name} (fn : Name) (d : TDict) 
       split at hr
       · simp at hr
       · rename_i g hd
-        cases hr
         obtain ⟨gs, _, gname⟩ := dictToTask_plain _ g hd
         rw [get_put_ne _ _ _ _ (by decide), get_put_self] at gname
         have hbase : baseOf fn d = .str g.name := Option.some.inj gname
         have hkeys : yieldKeys fn (.dict d nf bf) = [g.name] := by
           simp [yieldKeys, hnv, hbase, fmtOf]
-        rw [hkeys] at hrep ⊢
-        have hunseen : g.name ∉ seen := by
-          intro hin
-          simp [isReplacer, hnv, hin] at hrep
-        exact h.insert_new g.name { g with hasSubtask := true } (h.unseen _ hunseen) rfl gs
+        rw [hkeys]
+        split at hr
+        · rename_i hnew
+          cases hr
+          exact h.insert_new g.name { g with hasSubtask := true } hnew rfl gs
+        · rename_i ex hex
+          split at hr
+          · simp at hr
+          · rename_i hexs
+            cases hr
+            have := h.insert_merge g.name ex { g with hasSubtask := true, taskDep := g.taskDep ++ ex.taskDep }
+              g.taskDep hex (by simpa using hexs) rfl gs rfl rfl
+            exact this.weaken (by intro x hx; simp [hx])
     · rename_i hnone
       unfold yieldSub at hr
       split at hr
@@ -100,7 +106,7 @@ theorem yieldDict_inv {tk r : Tasks} {seen : List Name} (fn : Name) (d : TDict) 
         split at hr
         · simp at hr
         · rename_i sub hd
-          obtain ⟨_, _, sname⟩ := dictToTask_plain _ sub hd
+          obtain ⟨_, sleaf, sname⟩ := dictToTask_plain _ sub hd
           rw [get_put_self] at sname
           have hsn : sub.name = fullName (baseOf fn d) nv nf bf := by
             have := Option.some.inj sname
@@ -112,7 +118,7 @@ theorem yieldDict_inv {tk r : Tasks} {seen : List Name} (fn : Name) (d : TDict) 
               simp [yieldKeys, hnv, hnone, hb, fmtOf]
             rw [hkeys]
             rw [hb] at hkey hsn hr
-            exact attachSub_inv h b _ sub (hasKey_false _ _ hkey) (fullName_ne b nv nf bf) hsn hr
+            exact attachSub_inv h b _ sub (hasKey_false _ _ hkey) (fullName_ne b nv nf bf) hsn sleaf hr
           · split at hr <;> simp at hr
   · rename_i hnv
     unfold yieldPlain at hr
@@ -146,24 +152,23 @@ theorem yieldDict_inv {tk r : Tasks} {seen : List Name} (fn : Name) (d : TDict) 
             exact hother t.name (Option.some.inj tname)
 
 theorem yieldOne_inv {tk r : Tasks} {seen : List Name} (fn : Name) (y : Yielded) (h : Inv tk seen)
-    (hrep : (isReplacer y && (yieldKeys fn y).any seen.contains) = false)
     (hplain : ∀ t, y = .task t → plainTask t = true)
     (hr : yieldOne fn tk y = .ok r) : Inv r (seen ++ yieldKeys fn y) := by
   cases y with
   | other => simp [yieldOne] at hr
-  | dict d nf bf => exact yieldDict_inv fn d nf bf h hrep hr
+  | dict d nf bf => exact yieldDict_inv fn d nf bf h hr
   | task t =>
     simp only [yieldOne] at hr
-    cases hr
-    have hp := hplain t rfl
-    simp only [plainTask, Bool.and_eq_true, Option.isNone_iff_eq_none] at hp
-    have hunseen : t.name ∉ seen := by
-      intro hin
-      simp [isReplacer, yieldKeys, hin] at hrep
-    simpa [yieldKeys] using h.insert_new t.name t (h.unseen _ hunseen) rfl hp.1
+    split at hr
+    · simp at hr
+    · rename_i hkey
+      cases hr
+      have hp := hplain t rfl
+      simp only [plainTask, Bool.and_eq_true, Option.isNone_iff_eq_none] at hp
+      simpa [yieldKeys] using h.insert_new t.name t (hasKey_false _ _ hkey) rfl hp.1
 
 theorem yieldAll_inv (fn : Name) (ys : List Yielded) {tk r : Tasks} {seen : List Name} (h : Inv tk seen)
-    (hrep : noReplace fn seen ys = true) (hplain : (yieldedTasks ys).all plainTask = true)
+    (hplain : (yieldedTasks ys).all plainTask = true)
     (hr : yieldAll fn tk ys = .ok r) : ∃ seen', Inv r seen' := by
   induction ys generalizing tk seen with
   | nil => simp [yieldAll] at hr; cases hr; exact ⟨seen, h⟩
@@ -172,13 +177,12 @@ theorem yieldAll_inv (fn : Name) (ys : List Yielded) {tk r : Tasks} {seen : List
     split at hr
     · simp at hr
     · rename_i tk' hy
-      simp only [noReplace, Bool.and_eq_true, Bool.not_eq_true'] at hrep
       have hp1 : ∀ t, y = .task t → plainTask t = true := by
         intro t ht; subst ht
         simp [yieldedTasks] at hplain
         exact hplain.1
       have hp2 : (yieldedTasks rest).all plainTask = true := by
         cases y <;> simp_all [yieldedTasks]
-      exact ih (yieldOne_inv fn y h hrep.1 hp1 hy) hrep.2 hp2 hr
+      exact ih (yieldOne_inv fn y h hp1 hy) hp2 hr
 
 end DoitModel.Load
